@@ -209,6 +209,46 @@ pub fn c02(x: &str, out: &str, cfg: &Cfg, ctx: &mut Ctx) -> bool {
     true
 }
 
+/// 1: an anonymous routine sits inside a statement header, a raise statement or an until condition,
+/// 2: in the initialiser of a declaration (the parser only knows anonymous routines in plain
+/// statements - the C05 finding), 0: neither
+pub fn anon_outside_plain_statement(toks: &[GTok]) -> u8 {
+    let mut header_depth = 0u32;
+    let mut raise_active = false;
+    let mut decl_active = false;
+    let mut res = 0u8;
+    for g in toks {
+        if header_depth > 0 && matches!(g.text.as_str(), "then" | "do" | "of") {
+            header_depth -= 1;
+        }
+        if g.text == "raise" || (g.text == "until" && g.marks & M_C != 0) {
+            raise_active = true;
+        } else if g.marks & M_S != 0 {
+            raise_active = false;
+        }
+        if g.marks & M_D != 0 {
+            decl_active = true;
+        } else if g.marks & M_S != 0 {
+            decl_active = false;
+        }
+        if g.marks & M_A != 0 {
+            if header_depth > 0 || raise_active {
+                return 1;
+            }
+            if decl_active && res == 0 {
+                res = 2;
+            }
+        }
+        if g.marks & M_K != 0 && matches!(g.text.as_str(), "if" | "while" | "for" | "with" | "on") {
+            header_depth += 1;
+        }
+        if g.text == "case" && g.marks & M_O != 0 {
+            header_depth += 1;
+        }
+    }
+    res
+}
+
 /// identifiers that the generator knows to be identifiers (although their spelling is that of a
 /// contextual keyword) must come out with exactly their text
 pub fn c02_identifiers(x: &str, toks: &[GTok], out: &str, cfg: &Cfg, ctx: &mut Ctx) {
@@ -224,9 +264,13 @@ pub fn c02_identifiers(x: &str, toks: &[GTok], out: &str, cfg: &Cfg, ctx: &mut C
     }
     for (i, g) in gen.iter().enumerate() {
         if g.marks & M_I != 0 && ko[i].text(out) != g.text {
+            let sig = match anon_outside_plain_statement(toks) {
+                1 => "identifier-text-changed:anonymous-routine-inside-statement-header-or-raise",
+                _ => "identifier-text-changed",
+            };
             ctx.fail(
                 "C02",
-                "identifier-text-changed",
+                sig,
                 format!("identifier {:?} (token {i}) became {:?}; output {out:?}", g.text, ko[i].text(out)),
                 json!({"oracle": "c02", "input": x, "cfg": cfg, "identifiers": gen.iter().enumerate().filter(|(_, g)| g.marks & M_I != 0).map(|(i, _)| i).collect::<Vec<_>>()}),
             );
